@@ -65,7 +65,7 @@ def policies(sym, tier):
     now = [0.0]
     p = _policy(pi, clock=lambda: now[0])
     tracked = set()
-    n = 5
+    n = 4 if tier == "quick" else 5
     nk = 2 if tier == "quick" else 3
     script = []
     for s in range(n):
@@ -119,9 +119,9 @@ def store_sequential(sym, tier):
     store = KVStore("kv", read_latency=0.001, write_latency=0.002)
     cs = CachedStore("cache", backing_store=store, cache_capacity=cap, eviction_policy=_policy(pi, clock=lambda: now[0]), write_through=wt)
     model = {}
-    n = 4 if tier == "quick" else 5
+    n = 3 if tier == "quick" else 4
     script = []
-    nk = 2 if tier == "quick" else 3
+    nk = 2
     for s in range(n):
         op = sym.choice(f"op{s}", 5) if s > 0 else 1
         k = KEYS[sym.choice(f"key{s}", nk)]
@@ -243,12 +243,12 @@ HARNESSES = [
       cubes=lambda tier: [{"policy": a, "op1": b} for a in range(9) for b in range(4)],
       require=lambda tier: ["evicted"], classify=seq_classify,
       functions=["LRUEviction/LFUEviction/TTLEviction/FIFOEviction/RandomEviction/SLRUEviction/SampledLRUEviction/ClockEviction/TwoQueueEviction: on_insert/on_access/on_remove/evict"],
-      bounds=lambda tier: {"ops": 5, "keys": 2 if tier == "quick" else 3, "policies": POLICY_NAMES, "random policies": "fixed seed"}),
+      bounds=lambda tier: {"ops": 4 if tier == "quick" else 5, "keys": 2 if tier == "quick" else 3, "policies": POLICY_NAMES, "random policies": "fixed seed"}),
     H(name="c16_store_sequential", fn=store_sequential, shape="S", budget=lambda tier: 900.0 if tier == "quick" else 3000.0,
       cubes=lambda tier: [{"policy": a, "write_through": w, "capacity_minus_1": c} for a in range(9) for w in range(2) for c in range(2)],
       require=lambda tier: ["eviction"], classify=seq_classify,
       functions=["CachedStore.get/put/delete/invalidate/flush/_cache_put/_cache_remove", "KVStore.get/put/delete"],
-      bounds=lambda tier: {"ops": 4 if tier == "quick" else 5, "keys": 2 if tier == "quick" else 3, "capacity": [1, 2], "modes": ["write-through", "write-back"], "values": "symbolic"}),
+      bounds=lambda tier: {"ops": 3 if tier == "quick" else 4, "keys": 2, "capacity": [1, 2], "modes": ["write-through", "write-back"], "values": "symbolic"}),
     H(name="c16_store_overlap", fn=store_overlap, shape="S", budget=lambda tier: 900.0,
       require=lambda tier: ["read_after_put_completed", "miss_fill_overlaps_put"], classify=overlap_classify,
       functions=["CachedStore.get (miss fill)", "CachedStore.put", "KVStore.get/put"],
